@@ -26,6 +26,7 @@ None == <<>>
 Some(x) == <<x>>
 
 Min(a, b) == IF a <= b THEN a ELSE b
+Max0(a) == IF a > 0 THEN a ELSE 0
 
 \* ---------------------------------------------------------------- results / exceptions
 OK == [c |-> "ok", e |-> -1]
@@ -160,7 +161,8 @@ WMProcess(w, n) ==                                             \* process_bytes 
 NewStream(ep) ==
   [st |-> "IDLE", cl |-> "N", hs |-> FALSE, ts |-> FALSE, hr |-> FALSE, tr |-> FALSE, by |-> "N",
    ow |-> SCur(ep.rs, 4), iw |-> WM(SCur(ep.ls, 4)),
-   eclSet |-> FALSE, ecl |-> 0, acl |-> 0, meth |-> "None", auth |-> "None"]
+   eclSet |-> FALSE, ecl |-> 0, acl |-> 0, meth |-> "None", auth |-> "None",
+   un |-> 0]       \* (ghost, not in the code) flow-controlled octets received and not yet passed to acknowledge_received_data
 StreamOpen(s) == s.st \in {"OPEN", "HALF_CLOSED_LOCAL", "HALF_CLOSED_REMOTE"}
 
 \* result of one FSM input: st = new stream record, oc in {"ok","PE","SCE"}, ev = name of the produced event or "none",
@@ -220,6 +222,7 @@ InitEp(role, cfg, maxClosed) ==
    streams |-> <<>>, sord |-> <<>>, closed |-> <<>>, hiIn |-> 0, hiOut |-> 0,
    ls |-> InitSettings(role = "c", TRUE), rs |-> InitSettings(role # "c", FALSE),
    ow |-> 65535, iw |-> WM(65535), mof |-> 16384, mif |-> 16384, hdrCap |-> 65536,
+   un |-> 0,                    \* (ghost) flow-controlled octets received on live streams and not yet acknowledged by the application
    nblk |-> 0,                  \* header blocks this endpoint's HPACK encoder has been asked to write so far
    enc |-> EncInit,             \* HPACK encoder table-size state (follows the peer's HEADER_TABLE_SIZE)
    decSize |-> 4096,            \* table size the HPACK decoder currently uses (follows the size updates it decoded)
@@ -489,10 +492,12 @@ AckData(ep, c) ==
            lk == Lookup(ep, c.sid)
            closedMark(e, fr) == IF fr # <<>> /\ ep.conn = "CLOSED" THEN Mark(e, "ack_data_when_closed") ELSE e
        IN IF lk.c = "NoSuchStreamError" THEN CR(ep, NSE)       \* the lookup comes first: nothing has changed (repo fix)
-          ELSE IF lk.c = "StreamClosedError" \/ ~StreamOpen(ep.streams[c.sid]) THEN CR(closedMark(Emit(e1, f1), f1), OK)
+          ELSE IF lk.c = "StreamClosedError" \/ ~StreamOpen(ep.streams[c.sid])
+          THEN CR(closedMark(Emit([e1 EXCEPT !.un = Max0(@ - c.n)], f1), f1), OK)
           ELSE LET sw == WMProcess(ep.streams[c.sid].iw, c.n)
                    f2 == f1 \o (IF sw.inc # 0 THEN <<FWU(c.sid, sw.inc)>> ELSE <<>>)
-               IN CR(closedMark(Emit([e1 EXCEPT !.streams[c.sid].iw = sw.w], f2), f2), OK)
+               IN CR(closedMark(Emit([e1 EXCEPT !.streams[c.sid].iw = sw.w, !.streams[c.sid].un = Max0(@ - c.n),
+                                                !.un = Max0(@ - c.n)], f2), f2), OK)
 
 OpenCount(ep, parity) == LET e1 == Cleanup(ep) IN [ep |-> e1, r |-> [c |-> "ok", e |-> -1, v |-> CountOpen(e1, parity)]]
 
@@ -594,8 +599,8 @@ RecvData(ep, f) ==
                   ELSE LET s2 == [s1 EXCEPT !.acl = @ + f.n]
                            badLen == s2.eclSet /\ (s2.ecl < s2.acl \/ (f.es /\ s2.ecl # s2.acl))
                        IN IF badLen THEN RR(Put(e1, f.sid, s2), Exc("InvalidBodyLengthError", 1), <<>>)
-                          ELSE LET s3 == IF f.es THEN Process(s2, "RECV_END_STREAM").st ELSE s2 IN
-                               RR(Put(e1, f.sid, s3), OK,
+                          ELSE LET s3 == [(IF f.es THEN Process(s2, "RECV_END_STREAM").st ELSE s2) EXCEPT !.un = @ + fcl] IN
+                               RR([Put(e1, f.sid, s3) EXCEPT !.un = @ + fcl], OK,
                                   <<EvData(f.sid, f.n, IF f.n = 0 THEN "-" ELSE f.tag, fcl, IF f.es THEN 2 ELSE -1)>>
                                   \o (IF f.es THEN <<EvEnd(f.sid)>> ELSE <<>>))
 
@@ -618,7 +623,11 @@ ApplyInDelta(ep, sids, delta) ==
           ELSE LET over == delta > 0 /\ Overflows(w.max, delta)
                    newMax == IF over THEN MAXW ELSE w.max + delta
                    w1 == WMOpen(w, delta)
-               IN ApplyInDelta([ep EXCEPT !.streams[sid].iw = [w1 EXCEPT !.max = newMax], !.sat = @ \/ over], Tail(sids), delta)
+                   \* a decrease that takes the window to zero (or below) while acknowledged octets are still waiting to be
+                   \* credited: no WINDOW_UPDATE is emitted here, and none will be unless more DATA arrives -- which it cannot
+                   stall == delta < 0 /\ w.bp > 0 /\ w1.cur <= 0
+                   e1 == [ep EXCEPT !.streams[sid].iw = [w1 EXCEPT !.max = newMax], !.sat = @ \/ over]
+               IN ApplyInDelta(IF stall THEN Mark(e1, "settings_shrink_stalls_window") ELSE e1, Tail(sids), delta)
 
 RecvSettings(ep, f) ==
   LET c1 == ConnStep(ep, "RECV_SETTINGS") IN
@@ -814,7 +823,6 @@ FTL == Exc("FrameTooLargeError", 6)
 Bit(f, b) == (f.fl \div b) % 2 = 1
 RawErr(x) == [k |-> "err", x |-> x]
 RawOk(f) == [k |-> "ok", f |-> f]
-Max0(a) == IF a > 0 THEN a ELSE 0
 RawParse(f, lim) ==
   LET padded == Bit(f, 8) IN
   IF (f.typ \in {0, 1, 2, 3, 5, 9} /\ f.sid = 0) \/ (f.typ \in {4, 6, 7} /\ f.sid # 0) THEN RawErr(PE)
